@@ -877,9 +877,13 @@ class UniformMeshGeometryConverter(GeometryConverter):
                         if sourceBlockVal is None:
                             continue
                         if paramMapper.isPeak[paramName]:
-                            updatedDestVals[paramName] = max(
-                                sourceBlockVal, updatedDestVals[paramName]
-                            )
+                            # the running maximum starts at the first value, not at 0.0,
+                            # so that a peak of all-negative values is not mapped to zero
+                            if paramName in updatedDestVals:
+                                sourceBlockVal = max(
+                                    sourceBlockVal, updatedDestVals[paramName]
+                                )
+                            updatedDestVals[paramName] = sourceBlockVal
                         else:
                             if paramMapper.isVolIntegrated[paramName]:
                                 denominator = sourceBlockHeight
